@@ -24,6 +24,9 @@ func init() {
 		forms := map[string][]byte{
 			"multi": multi, "oneline": one, "crlf": []byte(strings.ReplaceAll(string(multi), "\n", "\r\n")),
 			"nofinalnl": []byte(strings.TrimRight(string(multi), "\n")), "tabs": tabbed,
+			// blanks after the last text (read through the file path of the generator)
+			"trailblank": []byte(strings.TrimRight(string(multi), "\n") + "  \n"), "trailtab": []byte(strings.TrimRight(string(multi), "\n") + "\t"),
+			"trailblanklines": []byte(strings.TrimRight(string(multi), "\n") + " \n\n \n"),
 		}
 		bases := []specgen.Flags{{}, {BasePath: "/v1"}, {BasePath: "/v1/", Client: true}, {BasePath: "/a/b", SpecName: "spec.json"}, {SpecName: "api-docs.yaml", Cors: true},
 			// names that URL escaping would rewrite: the route is compared with the decoded request path
